@@ -212,7 +212,7 @@ def main(argv=None) -> int:
   if a.only:
     shards = [s for s in shards if a.only in s['name']]
   # size the tier by total wall time: shard budgets are scaled down if their sum exceeds the wall cap
-  cap = float(os.environ.get('VERIF_WALL_S', '1500' if a.tier == 'thorough' else '240'))
+  cap = float(os.environ.get('VERIF_WALL_S', '900' if a.tier == 'thorough' else '240'))
   total = sum(s.get('budget_s', 60) for s in shards)
   allowed = cap * max(1, min(a.jobs, len(shards) or 1)) * 0.85
   if total > allowed:
